@@ -706,16 +706,23 @@ impl MqttClientImpl {
                 self.desired_stop_options = None;
                 self.desired_state = ClientImplState::Connected;
             }
-            OperationOptions::Stop(options) => {
+            OperationOptions::Stop(mut options) => {
 
                 if let Some(disconnect) = &options.disconnect {
-                    debug!("Submitting disconnect operation to protocol state");
-                    let disconnect_context = UserEventContext {
-                        event: UserEvent::Disconnect(disconnect.clone()),
-                        current_time
-                    };
+                    if is_connection_established(self.protocol_state.state()) {
+                        debug!("Submitting disconnect operation to protocol state");
+                        let disconnect_context = UserEventContext {
+                            event: UserEvent::Disconnect(disconnect.clone()),
+                            current_time
+                        };
 
-                    self.protocol_state.handle_user_event(disconnect_context);
+                        self.protocol_state.handle_user_event(disconnect_context);
+                    } else {
+                        // without an established MQTT connection the DISCONNECT can never be sent; waiting
+                        // for it to be flushed would keep the client from ever stopping
+                        debug!("Dropping disconnect packet from stop request; no established connection");
+                        options.disconnect = None;
+                    }
                 }
 
                 debug!("Updating desired state to Stopped");
